@@ -78,7 +78,7 @@ func VerifC12_AllOrNothing() {
 	zzNote("doc", doc)
 
 	limit := zzInt("limit", 0, 200)
-	w := &zzWriter{limit: limit}
+	w := &zzWriter{limit: limit, transient: zzBool("transientFailure")}
 	err := run(w)
 	zzNote("got", string(w.got))
 	if err != nil {
@@ -114,6 +114,7 @@ func VerifC12_AllOrNothing() {
 		zzAssert(err == nil, "C12.ok.spurious-error")
 		zzAssert(string(w.got) == doc, "C12.ok.incomplete-document")
 	} else {
+		zzAssert(w.fails > 0, "C12.writer.never-failed")
 		zzAssert(err != nil, "C12.writer.failure-not-reported")
 	}
 }
